@@ -880,6 +880,58 @@ def origins(e, src):
     return o
 
 
+def rule4c(chk, db, cfgname):
+    chk.rule('C09.4c', 'Boolean3::Result never returns a NoError solid while an operand carries an error: every return '
+             'that does not itself forward an operand status is dominated by the status tests of BOTH operands '
+             '(an errored operand is empty, so an emptiness fast path taken first would launder its error)')
+    fs = [f for f in db.fn('manifold::Boolean3::Result') if f.get('blocks')]
+    if len(fs) != 1:
+        raise AnalysisBroken('C09.4c: Boolean3::Result not found uniquely')
+    f = fs[0]
+    g = C.Cfg(f)
+    dom = g.dominators()
+    tests = {'inP_': set(), 'inQ_': set()}
+    for b in f['blocks']:
+        cond, _ = C.branch_cond(b)
+        if cond is None:
+            continue
+        for x in T.walk(cond):
+            if isinstance(x, dict) and x.get('k') == 'mem' and x.get('n') == 'status_':
+                base = T.strip(x['base'])
+                if base.get('k') == 'mem' and base.get('n') in tests:
+                    tests[base['n']].add(b['id'])
+    if not tests['inP_'] or not tests['inQ_']:
+        raise AnalysisBroken('C09.4c: operand status tests of Boolean3::Result not found')
+    n = 0
+    for b in f['blocks']:
+        if b['id'] not in g.reachable():
+            continue
+        for e in b['ev']:
+            if e.get('k') != 'return':
+                continue
+            # a return inside the error branch of a status test forwards that status
+            deps = {d for d, k in g.control_deps(b['id'])}
+            if deps & (tests['inP_'] | tests['inQ_']) and any(
+                    isinstance(y, dict) and y.get('k') == 'mem' and y.get('n') == 'status_'
+                    for bb in f['blocks'] if bb['id'] == b['id'] or bb['id'] in deps for ee in bb['ev']
+                    for y in T.walk(ee)):
+                continue
+            n += 1
+            d = dom.get(b['id'], set())
+            okp = bool(tests['inP_'] & d)
+            okq = bool(tests['inQ_'] & d)
+            ok = okp and okq
+            chk.obligation(ok, {'function': f['name'], 'line': e.get('ln'), 'inP_.status_ tested before': okp,
+                                'inQ_.status_ tested before': okq})
+            if not ok:
+                chk.violation('C09.4c', f, 'return without %s status test' % ('inQ_' if okp else 'inP_'),
+                              'Boolean3::Result can return a NoError result at line %s without having looked at the '
+                              'status of %s: an errored (hence empty) operand is treated as a valid empty solid and '
+                              'its error is lost' % (e.get('ln'), 'inQ_' if okp else 'inP_'), line=e.get('ln'),
+                              cfg=cfgname)
+    chk.count('c09.4c.result_returns', n)
+
+
 def main(chk, tier):
     import db as D
     configs = ['seq', 'par'] if tier == 'quick' else ['seq', 'par', 'seq-debug', 'par-debug']
@@ -895,8 +947,10 @@ def main(chk, tier):
         rule3(chk, db, cfgname, tab)
         rule4(chk, db, cfgname, tab)
         rule4b(chk, db, cfgname, tab)
+        rule4c(chk, db, cfgname)
         rule5(chk, db, cfgname, tab)
     n = len(configs)
+    chk.floor('c09.4c.result_returns', 4 * n)
     chk.floor('c09.1a.tainted_index_sites', 6 * n)
     chk.floor('c09.1b.fields', 16 * n)
     chk.floor('c09.2.divisions', 4 * n)
